@@ -304,13 +304,14 @@ class Gaussian(Distribution):
             raise NotImplementedError("Gradient not implemented for distribution {} with geometry {}".format(self,self.geometry))
 
         if not callable(self.mean): # for prior
-            return -( self.prec @ (val - self.mean).T )
+            # use the canonical sqrtprec (prec may be stored as the scalar/vector it was given as)
+            return -( self.sqrtprec.T @ (self.sqrtprec @ (val - self.mean).T) )
         elif hasattr(self.mean, "gradient"): # for likelihood
             model = self.mean
             dev = val - model.forward(*args, **kwargs)
             if isinstance(dev, numbers.Number):
                 dev = np.array([dev])
-            return model.gradient(self.prec @ dev, *args, **kwargs)
+            return model.gradient(self.sqrtprec.T @ (self.sqrtprec @ dev), *args, **kwargs)
         else:
             raise NotImplementedError('Gradient not implemented for {}'.format(type(self.mean)))
 
